@@ -155,7 +155,8 @@ def apply(s, op, part, hist):
         if kind == "add":
             mapping = MAPPINGS[op[2]](s)
             model_mapping = None if mapping is None else dict(mapping)  # content at call time
-            result = mgr.AddUnitSystem(op[1], "caption " + op[1], mapping)
+            # (system 'b' is always created read-only: the flag is descriptive, the notifications are the same)
+            result = mgr.AddUnitSystem(op[1], "caption " + op[1], mapping, op[1] == "b")
         elif kind == "remove":
             mgr.RemoveUnitSystem(op[1])
         elif kind == "cur":
